@@ -1638,3 +1638,30 @@ def functools_partial(engine, run, a, k):
     f = a[0]
     pre_a, pre_k = list(a[1:]), dict(k)
     return SNative(lambda run2, a2, k2: engine.invoke(run2, f, pre_a + list(a2), {**pre_k, **k2}), "partial")
+
+
+class SSymSet:
+    """set built from a symbolic-length sequence: only its size is modelled: 0 for an empty sequence, between 1 and the length otherwise, and
+    exactly 1 iff all elements are equal (elements are compared through `key(element)`, a z3 term)"""
+
+    def __init__(self, run, seq):
+        self.seq = seq
+        n = to_z3(seq.length)
+        c = run.fresh_int("set_size")
+        i, j = z3.Ints("ss_i ss_j")
+
+        def key(v):
+            if hasattr(v, "sym_set_key"):
+                return v.sym_set_key(run)
+            if is_z3(v):
+                return v
+            raise Undecided(f"set of {type(v).__name__} over a symbolic sequence")
+        self.key = key
+        ki, kj = key(seq.at(i)), key(seq.at(j))
+        run.define(z3.And(c >= 0, c <= n, (c == 0) == (n <= 0),
+                          (c <= 1) == z3.ForAll([i, j], z3.Implies(z3.And(i >= 0, i < n, j >= 0, j < n), ki == kj))),
+                   "size of a set: 0 iff empty, at most the number of elements, 1 iff all elements are equal")
+        self.size = c
+
+    def sym_len(self, run):
+        return self.size
